@@ -1,9 +1,1701 @@
-//! C20 — not implemented yet.
-use crate::util::{Args, Out};
-use serde_json::{Value, json};
+//! C20 — values and types survive the plugin FFI encoding.
+//!
+//! The real encoders/decoders are executed on explicit values and types:
+//!   * `ffi_value`   : `ffi_serde::serialize_value` -> `ffi_serde::deserialize_value`
+//!   * `macro_args`  : `ffi_serde::serialize_macro_args` -> `ffi_serde::deserialize_macro_args`
+//!   * `serde_value` : bincode over the hand-written `Serialize/Deserialize for Value`
+//!                     (interpreter/serde_impl.rs)
+//!   * `type_by_value` : bincode over the hand-written `Serialize/Deserialize for Type`
+//!                     (types/serde_impl.rs)
+//!   * `type_node_id`  : bincode over `TypeNodeId` (what `plugin/loader.rs::get_type_infos` decodes)
+//! and a structural comparator written here decides whether what came back equals what
+//! went in (floats by bits, strings by bytes, records by ordered key list, code by
+//! expression identity). Values that cannot cross must be refused.
 
-pub fn meta(_args: &Args) -> Value {
-    json!({"level": "exploration", "rule": "not implemented", "floor": {"quick": 1000000, "thorough": 1000000}})
+use super::{drive, replay_one};
+use crate::util::{Args, Out, Rng, catch};
+use mimium_lang::ast::{Expr, Literal};
+use mimium_lang::compiler::EvalStage;
+use mimium_lang::interner::{ExprNodeId, Symbol, ToSymbol, TypeNodeId, with_session_globals};
+use mimium_lang::interpreter::{ExtFunction, Value};
+use mimium_lang::runtime::ffi_serde::{
+    deserialize_macro_args, deserialize_value, serialize_macro_args, serialize_value,
+};
+use mimium_lang::types::{IntermediateId, PType, RecordTypeField, Type, TypeSchemeId, TypeVar};
+use mimium_lang::utils::environment::Environment;
+use mimium_lang::utils::metadata::Location;
+use serde::{Deserialize, Serialize};
+use serde_json::{Value as Json, json};
+use std::cell::RefCell;
+use std::collections::{BTreeMap, BTreeSet, HashMap};
+use std::rc::Rc;
+use std::sync::{Arc, RwLock};
+
+// ------------------------------------------------------------------ artefacts
+
+/// Code artefact: a small expression, interned when the value is built.
+#[derive(Clone, Debug, PartialEq, Serialize, Deserialize)]
+pub enum C {
+    Int(i64),
+    Var(String),
+    Str(String),
+    Tuple(Vec<C>),
+    App(Box<C>, Vec<C>),
+    Err,
+    /// same expression stored with a source location (span start, end)
+    At(Box<C>, usize, usize),
 }
-pub fn run(_args: &Args, _out: &mut Out) {}
-pub fn replay(_args: &Args, _out: &mut Out, _case: &Value) {}
+
+/// Value artefact. Numbers are IEEE-754 bit patterns so that NaN payloads and -0.0 are
+/// carried exactly by the JSON case.
+#[derive(Clone, Debug, PartialEq, Serialize, Deserialize)]
+pub enum V {
+    Unit,
+    Num(u64),
+    Str(String),
+    /// deterministic string of exactly n bytes, see `big_string`
+    Big(u32),
+    Code(C),
+    Arr(Vec<V>),
+    Tup(Vec<V>),
+    Rec(Vec<(String, V)>),
+    Tag(u64, Box<V>),
+    /// `Value::ErrorV`: in neither list of the property (see findings/C20/NOTES.md)
+    ErrV,
+    // values that cannot cross the boundary
+    Closure,
+    Fix,
+    ExtFn,
+    Store(Box<V>),
+    CtorFn(u64),
+}
+
+/// Type artefact.
+#[derive(Clone, Debug, PartialEq, Serialize, Deserialize)]
+pub enum T {
+    /// 0 Unit, 1 Int, 2 Numeric, 3 String
+    P(u8),
+    Arr(Box<T>),
+    Tup(Vec<T>),
+    Rec(Vec<(String, T, bool)>),
+    Fun(Box<T>, Box<T>),
+    Ref(Box<T>),
+    Code(Box<T>),
+    Uni(Vec<T>),
+    Sum(String, Vec<(String, Option<T>)>),
+    Boxed(Box<T>),
+    Alias(String),
+    Any,
+    Fail,
+    Unk,
+    // internal compiler state: must be refused when sent by value
+    Inter(u64),
+    Scheme(u64),
+}
+
+#[derive(Clone, Debug, Serialize, Deserialize)]
+pub enum Case {
+    /// every element of the depth<=1 universe on its own, and the empty argument list
+    ValBase,
+    /// `ctor[first]` and `ctor[first, b]` for every b of the depth<=1 universe
+    /// (records: keys "x","y"); the argument list [(first), (b)] goes through `macro_args`
+    ValBlock { ctor: String, first: V },
+    /// TaggedUnion(tag, b) for every b of the depth<=1 universe
+    ValTagBlock { tag: u64 },
+    /// every chain root(c2(c3(leaf))) of constructors, the inner value at every slot
+    ValChains { root: String },
+    /// every nesting context (depth <= 2) around one value that must be refused
+    Refuse { bad: V },
+    /// the depth<=1 type universe bare and under every unary constructor
+    TyBase,
+    /// `ctor[first]` and `ctor[first, b]` for every b of the depth<=1 type universe
+    /// (for "Sum", `first`/b range over payload-less and payload-carrying variants)
+    TyBlock { ctor: String, first: Option<T> },
+    /// every chain root(c2(c3(leaf))) of type constructors, the inner type at every slot
+    TyChains { root: String },
+    /// depth 3 over reduced leaves: for the lo..hi-th values a of U2' (all values of depth <= 2,
+    /// width <= 2 over `deep_leaves`): ctor[a], ctor[a,b], ctor[b,a] for every b of U1' (depth <= 1),
+    /// or TaggedUnion(tag, a) for the five tags when ctor = "Tag"
+    ValDeep { ctor: String, lo: usize, hi: usize },
+    /// depth 3 over reduced type leaves: for the lo..hi-th types a of U2T': the unary ctor over a, or
+    /// ctor[a,b], ctor[b,a] for b in {Numeric, alias}
+    TyDeep { ctor: String, lo: usize, hi: usize },
+    /// explicit values (each through ffi_value and serde_value, all together with `tys`
+    /// as one macro argument list) and explicit types
+    Rand { vals: Vec<V>, tys: Vec<T> },
+    /// one explicit value through ffi_value and serde_value (the form violations are reported in)
+    OneValue { val: V },
+    /// one explicit argument list through macro_args
+    OneArgs { vals: Vec<V>, tys: Vec<T> },
+    /// one explicit type through type_by_value and type_node_id
+    OneType { ty: T },
+}
+
+// ------------------------------------------------------------------ worker state
+
+struct St {
+    code: HashMap<String, ExprNodeId>,
+    big: HashMap<u32, Symbol>,
+    n: BTreeMap<String, u64>,
+    sets: BTreeMap<&'static str, BTreeSet<String>>,
+    q_errv: bool,
+    u1: Vec<V>,
+    u1t: Vec<T>,
+    /// reduced universes for the depth-3 enumeration, built on first use: (U1', U2', U2T')
+    deep: Option<Rc<(Vec<V>, Vec<V>, Vec<T>)>>,
+}
+
+impl St {
+    fn new(args: &Args) -> St {
+        let q_errv = args.q("errorv-leaf");
+        St {
+            code: HashMap::new(),
+            big: HashMap::new(),
+            n: BTreeMap::new(),
+            sets: BTreeMap::new(),
+            q_errv,
+            u1: universe1(&leaves(q_errv)),
+            u1t: type_universe1(&tleaves()),
+            deep: None,
+        }
+    }
+    fn deep(&mut self) -> Rc<(Vec<V>, Vec<V>, Vec<T>)> {
+        if self.deep.is_none() {
+            let u1 = universe1(&deep_leaves());
+            let u2 = universe1(&u1);
+            let u2t = type_universe1(&type_universe1(&deep_tleaves()));
+            self.deep = Some(Rc::new((u1, u2, u2t)));
+        }
+        self.deep.clone().unwrap()
+    }
+    fn c(&mut self, k: &str, n: u64) {
+        if let Some(x) = self.n.get_mut(k) {
+            *x += n;
+        } else {
+            self.n.insert(k.to_string(), n);
+        }
+    }
+    fn s(&mut self, k: &'static str, v: String) {
+        let s = self.sets.entry(k).or_default();
+        if s.len() < 4000 {
+            s.insert(v);
+        }
+    }
+    fn flush(&mut self, out: &mut Out) {
+        for (k, v) in std::mem::take(&mut self.n) {
+            out.count(&k, v);
+        }
+        for (k, vs) in std::mem::take(&mut self.sets) {
+            for v in vs {
+                out.set(k, v);
+            }
+        }
+    }
+}
+
+// ------------------------------------------------------------------ building real values
+
+/// Exactly `n` bytes: cycles through 1-, 2- and 4-byte characters and NUL, padded with 'x'.
+fn big_string(n: u32) -> String {
+    let n = n as usize;
+    let cyc = ['a', 'é', '\0', '𝄞', 'z', '日'];
+    let mut s = String::with_capacity(n);
+    let mut i = 0;
+    loop {
+        let ch = cyc[i % cyc.len()];
+        if s.len() + ch.len_utf8() > n {
+            break;
+        }
+        s.push(ch);
+        i += 1;
+    }
+    while s.len() < n {
+        s.push('x');
+    }
+    s
+}
+
+fn build_code_raw(c: &C) -> ExprNodeId {
+    match c {
+        C::Int(n) => Expr::Literal(Literal::Int(*n)).into_id_without_span(),
+        C::Var(s) => Expr::Var(s.to_symbol()).into_id_without_span(),
+        C::Str(s) => Expr::Literal(Literal::String(s.to_symbol())).into_id_without_span(),
+        C::Tuple(cs) => Expr::Tuple(cs.iter().map(build_code_raw).collect()).into_id_without_span(),
+        C::App(f, a) => Expr::Apply(build_code_raw(f), a.iter().map(build_code_raw).collect()).into_id_without_span(),
+        C::Err => Expr::Error.into_id_without_span(),
+        C::At(inner, a, b) => {
+            let e = build_code_raw(inner).to_expr();
+            e.into_id(Location::new(*a..*b, std::path::PathBuf::from("c20.mmm")))
+        }
+    }
+}
+
+fn build_code(st: &mut St, c: &C) -> ExprNodeId {
+    let key = serde_json::to_string(c).unwrap();
+    if let Some(id) = st.code.get(&key) {
+        return *id;
+    }
+    let id = build_code_raw(c);
+    st.code.insert(key, id);
+    id
+}
+
+fn build(st: &mut St, v: &V) -> Value {
+    match v {
+        V::Unit => Value::Unit,
+        V::Num(b) => Value::Number(f64::from_bits(*b)),
+        V::Str(s) => Value::String(s.to_symbol()),
+        V::Big(n) => {
+            if let Some(s) = st.big.get(n) {
+                return Value::String(*s);
+            }
+            let sym = big_string(*n).to_symbol();
+            st.big.insert(*n, sym);
+            Value::String(sym)
+        }
+        V::Code(c) => Value::Code(build_code(st, c)),
+        V::Arr(xs) => Value::Array(xs.iter().map(|x| build(st, x)).collect()),
+        V::Tup(xs) => Value::Tuple(xs.iter().map(|x| build(st, x)).collect()),
+        V::Rec(fs) => Value::Record(fs.iter().map(|(k, x)| (k.to_symbol(), build(st, x))).collect()),
+        V::Tag(t, x) => Value::TaggedUnion(*t, Box::new(build(st, x))),
+        V::ErrV => Value::ErrorV(build_code(st, &C::Err)),
+        V::Closure => Value::Closure(
+            build_code(st, &C::Int(0)),
+            vec!["p".to_symbol()],
+            Environment::<(Value, EvalStage)>::new(),
+        ),
+        V::Fix => Value::Fixpoint("fixme".to_symbol(), build_code(st, &C::Var("fixme".into()))),
+        V::ExtFn => Value::ExternalFn(ExtFunction::new("c20_ext".to_symbol(), |_| Value::Unit)),
+        V::Store(x) => Value::Store(Rc::new(RefCell::new(build(st, x)))),
+        V::CtorFn(t) => Value::ConstructorFn(*t, "Ctor".to_symbol(), build_type(&T::P(2))),
+    }
+}
+
+fn ptype(n: u8) -> PType {
+    match n {
+        0 => PType::Unit,
+        1 => PType::Int,
+        2 => PType::Numeric,
+        _ => PType::String,
+    }
+}
+
+fn build_type(t: &T) -> TypeNodeId {
+    let ty = match t {
+        T::P(n) => Type::Primitive(ptype(*n)),
+        T::Arr(x) => Type::Array(build_type(x)),
+        T::Tup(xs) => Type::Tuple(xs.iter().map(build_type).collect()),
+        T::Rec(fs) => Type::Record(fs.iter().map(|(k, x, d)| RecordTypeField::new(k.to_symbol(), build_type(x), *d)).collect()),
+        T::Fun(a, r) => Type::Function { arg: build_type(a), ret: build_type(r) },
+        T::Ref(x) => Type::Ref(build_type(x)),
+        T::Code(x) => Type::Code(build_type(x)),
+        T::Uni(xs) => Type::Union(xs.iter().map(build_type).collect()),
+        T::Sum(name, vs) => Type::UserSum {
+            name: name.to_symbol(),
+            variants: vs.iter().map(|(k, p)| (k.to_symbol(), p.as_ref().map(build_type))).collect(),
+        },
+        T::Boxed(x) => Type::Boxed(build_type(x)),
+        T::Alias(s) => Type::TypeAlias(s.to_symbol()),
+        T::Any => Type::Any,
+        T::Fail => Type::Failure,
+        T::Unk => Type::Unknown,
+        T::Inter(n) => Type::Intermediate(Arc::new(RwLock::new(TypeVar::new(IntermediateId(*n), 0)))),
+        T::Scheme(n) => Type::TypeScheme(TypeSchemeId(*n)),
+    };
+    ty.into_id()
+}
+
+/// A plausible static type for a value (what the host would send along with it).
+fn type_of(v: &V) -> T {
+    match v {
+        V::Unit => T::P(0),
+        V::Num(_) => T::P(2),
+        V::Str(_) | V::Big(_) => T::P(3),
+        V::Code(_) => T::Code(Box::new(T::P(2))),
+        V::Arr(xs) => T::Arr(Box::new(xs.first().map(type_of).unwrap_or(T::Unk))),
+        V::Tup(xs) => T::Tup(xs.iter().map(type_of).collect()),
+        V::Rec(fs) => T::Rec(fs.iter().map(|(k, x)| (k.clone(), type_of(x), false)).collect()),
+        V::Tag(_, x) => T::Uni(vec![type_of(x), T::P(0)]),
+        V::ErrV => T::Fail,
+        V::Store(x) => T::Ref(Box::new(type_of(x))),
+        V::Closure | V::Fix | V::ExtFn | V::CtorFn(_) => T::Fun(Box::new(T::P(2)), Box::new(T::P(2))),
+    }
+}
+
+// ------------------------------------------------------------------ structural comparators
+
+fn kind(v: &Value) -> &'static str {
+    match v {
+        Value::ErrorV(_) => "ErrorV",
+        Value::Unit => "Unit",
+        Value::Number(_) => "Number",
+        Value::String(_) => "String",
+        Value::Array(_) => "Array",
+        Value::Record(_) => "Record",
+        Value::Tuple(_) => "Tuple",
+        Value::Closure(..) => "Closure",
+        Value::Fixpoint(..) => "Fixpoint",
+        Value::Code(_) => "Code",
+        Value::ExternalFn(_) => "ExternalFn",
+        Value::Store(_) => "Store",
+        Value::TaggedUnion(..) => "TaggedUnion",
+        Value::ConstructorFn(..) => "ConstructorFn",
+    }
+}
+
+fn sym_valid(s: Symbol) -> bool {
+    with_session_globals(|g| g.symbol_interner.resolve(s.0).is_some())
+}
+
+fn sym_eq(a: Symbol, b: Symbol) -> Result<(), String> {
+    if a.0 == b.0 {
+        return Ok(());
+    }
+    if !sym_valid(b) {
+        return Err(format!("decoded symbol {} is not interned", b.0));
+    }
+    if a.as_str().as_bytes() == b.as_str().as_bytes() {
+        Ok(())
+    } else {
+        Err(format!("{:?} became {:?}", clip(a.as_str()), clip(b.as_str())))
+    }
+}
+
+fn clip(s: &str) -> String {
+    if s.len() <= 48 {
+        s.to_string()
+    } else {
+        let mut e = 40;
+        while !s.is_char_boundary(e) {
+            e -= 1;
+        }
+        format!("{}…({} bytes)", &s[..e], s.len())
+    }
+}
+
+fn expr_eq(a: ExprNodeId, b: ExprNodeId) -> Result<(), String> {
+    if a.0 == b.0 {
+        return Ok(());
+    }
+    if !with_session_globals(|g| g.expr_storage.contains_key(b.0)) {
+        return Err("decoded expression id is not in the interner".into());
+    }
+    // a different id is still the same code if the repository's own equality says so
+    if a.to_expr() == b.to_expr() && a.to_span() == b.to_span() {
+        Ok(())
+    } else {
+        Err(format!("expression {} became {}", a, b))
+    }
+}
+
+type Diff = (String, String); // (class tag, detail)
+
+fn veq(a: &Value, b: &Value, path: &str) -> Result<(), Diff> {
+    let seq = |xs: &[Value], ys: &[Value], what: &str| -> Result<(), Diff> {
+        if xs.len() != ys.len() {
+            return Err((format!("{what}-length"), format!("at {path}: {} elements became {}", xs.len(), ys.len())));
+        }
+        for (i, (x, y)) in xs.iter().zip(ys).enumerate() {
+            veq(x, y, &format!("{path}[{i}]"))?;
+        }
+        Ok(())
+    };
+    match (a, b) {
+        (Value::Unit, Value::Unit) => Ok(()),
+        (Value::Number(x), Value::Number(y)) => {
+            if x.to_bits() == y.to_bits() {
+                Ok(())
+            } else {
+                Err(("Number-bits".into(), format!("at {path}: {:#018x} ({x:?}) became {:#018x} ({y:?})", x.to_bits(), y.to_bits())))
+            }
+        }
+        (Value::String(x), Value::String(y)) => sym_eq(*x, *y).map_err(|e| ("String-bytes".into(), format!("at {path}: {e}"))),
+        (Value::Array(x), Value::Array(y)) => seq(x, y, "Array"),
+        (Value::Tuple(x), Value::Tuple(y)) => seq(x, y, "Tuple"),
+        (Value::Record(x), Value::Record(y)) => {
+            if x.len() != y.len() {
+                return Err(("Record-length".into(), format!("at {path}: {} fields became {}", x.len(), y.len())));
+            }
+            for (i, ((ka, va), (kb, vb))) in x.iter().zip(y).enumerate() {
+                sym_eq(*ka, *kb).map_err(|e| ("Record-key".to_string(), format!("at {path}.#{i}: key {e}")))?;
+                veq(va, vb, &format!("{path}.#{i}"))?;
+            }
+            Ok(())
+        }
+        (Value::TaggedUnion(ta, x), Value::TaggedUnion(tb, y)) => {
+            if ta != tb {
+                return Err(("TaggedUnion-tag".into(), format!("at {path}: tag {ta} became {tb}")));
+            }
+            veq(x, y, &format!("{path}.payload"))
+        }
+        (Value::Code(x), Value::Code(y)) => expr_eq(*x, *y).map_err(|e| ("Code-expression".into(), format!("at {path}: {e}"))),
+        (Value::ErrorV(x), Value::ErrorV(y)) => expr_eq(*x, *y).map_err(|e| ("ErrorV-expression".into(), format!("at {path}: {e}"))),
+        (Value::Fixpoint(sa, x), Value::Fixpoint(sb, y)) => {
+            sym_eq(*sa, *sb).map_err(|e| ("Fixpoint-name".to_string(), format!("at {path}: {e}")))?;
+            expr_eq(*x, *y).map_err(|e| ("Fixpoint-expression".into(), format!("at {path}: {e}")))
+        }
+        (Value::ConstructorFn(ta, sa, ya), Value::ConstructorFn(tb, sb, yb)) => {
+            if ta != tb {
+                return Err(("ConstructorFn-tag".into(), format!("at {path}: tag {ta} became {tb}")));
+            }
+            sym_eq(*sa, *sb).map_err(|e| ("ConstructorFn-name".to_string(), format!("at {path}: {e}")))?;
+            tid_eq(*ya, *yb, path).map_err(|(c, d)| (format!("ConstructorFn-type-{c}"), d))
+        }
+        _ if kind(a) == kind(b) => Ok(()), // Closure / ExternalFn / Store: never decoded
+        _ => Err((format!("{}->{}", kind(a), kind(b)), format!("at {path}: {} became {}", kind(a), kind(b)))),
+    }
+}
+
+fn tkind(t: &Type) -> &'static str {
+    match t {
+        Type::Primitive(_) => "Primitive",
+        Type::Array(_) => "Array",
+        Type::Tuple(_) => "Tuple",
+        Type::Record(_) => "Record",
+        Type::Function { .. } => "Function",
+        Type::Ref(_) => "Ref",
+        Type::Code(_) => "Code",
+        Type::Union(_) => "Union",
+        Type::UserSum { .. } => "UserSum",
+        Type::Boxed(_) => "Boxed",
+        Type::Intermediate(_) => "Intermediate",
+        Type::TypeScheme(_) => "TypeScheme",
+        Type::TypeAlias(_) => "TypeAlias",
+        Type::Any => "Any",
+        Type::Failure => "Failure",
+        Type::Unknown => "Unknown",
+    }
+}
+
+/// Equality of two type ids: the same key, or (valid and) structurally equal types.
+fn tid_eq(a: TypeNodeId, b: TypeNodeId, path: &str) -> Result<(), Diff> {
+    if a.0 == b.0 {
+        return Ok(());
+    }
+    if !with_session_globals(|g| g.type_storage.contains_key(b.0)) {
+        return Err(("dangling-id".into(), format!("at {path}: decoded type id is not in the interner")));
+    }
+    teq(&a.to_type(), &b.to_type(), path)
+}
+
+fn teq(a: &Type, b: &Type, path: &str) -> Result<(), Diff> {
+    let ids = |xs: &[TypeNodeId], ys: &[TypeNodeId], what: &str| -> Result<(), Diff> {
+        if xs.len() != ys.len() {
+            return Err((format!("{what}-length"), format!("at {path}: {} members became {}", xs.len(), ys.len())));
+        }
+        for (i, (x, y)) in xs.iter().zip(ys).enumerate() {
+            tid_eq(*x, *y, &format!("{path}/{what}[{i}]"))?;
+        }
+        Ok(())
+    };
+    match (a, b) {
+        (Type::Primitive(x), Type::Primitive(y)) => {
+            if x == y {
+                Ok(())
+            } else {
+                Err(("Primitive".into(), format!("at {path}: {x:?} became {y:?}")))
+            }
+        }
+        (Type::Array(x), Type::Array(y)) => tid_eq(*x, *y, &format!("{path}/Array")),
+        (Type::Ref(x), Type::Ref(y)) => tid_eq(*x, *y, &format!("{path}/Ref")),
+        (Type::Code(x), Type::Code(y)) => tid_eq(*x, *y, &format!("{path}/Code")),
+        (Type::Boxed(x), Type::Boxed(y)) => tid_eq(*x, *y, &format!("{path}/Boxed")),
+        (Type::Tuple(x), Type::Tuple(y)) => ids(x, y, "Tuple"),
+        (Type::Union(x), Type::Union(y)) => ids(x, y, "Union"),
+        (Type::Record(x), Type::Record(y)) => {
+            if x.len() != y.len() {
+                return Err(("Record-length".into(), format!("at {path}: {} fields became {}", x.len(), y.len())));
+            }
+            for (i, (fa, fb)) in x.iter().zip(y).enumerate() {
+                sym_eq(fa.key, fb.key).map_err(|e| ("Record-key".to_string(), format!("at {path}/Record#{i}: key {e}")))?;
+                if fa.has_default != fb.has_default {
+                    return Err(("Record-has_default".into(), format!("at {path}/Record#{i}: has_default {} became {}", fa.has_default, fb.has_default)));
+                }
+                tid_eq(fa.ty, fb.ty, &format!("{path}/Record#{i}"))?;
+            }
+            Ok(())
+        }
+        (Type::Function { arg: a1, ret: r1 }, Type::Function { arg: a2, ret: r2 }) => {
+            tid_eq(*a1, *a2, &format!("{path}/Function.arg")).map_err(|(_, d)| ("Function-arg".to_string(), d))?;
+            tid_eq(*r1, *r2, &format!("{path}/Function.ret")).map_err(|(_, d)| ("Function-ret".to_string(), d))
+        }
+        (Type::UserSum { name: n1, variants: v1 }, Type::UserSum { name: n2, variants: v2 }) => {
+            sym_eq(*n1, *n2).map_err(|e| ("UserSum-name".to_string(), format!("at {path}: name {e}")))?;
+            if v1.len() != v2.len() {
+                return Err(("UserSum-length".into(), format!("at {path}: {} variants became {}", v1.len(), v2.len())));
+            }
+            for (i, ((ka, pa), (kb, pb))) in v1.iter().zip(v2).enumerate() {
+                sym_eq(*ka, *kb).map_err(|e| ("UserSum-variant-name".to_string(), format!("at {path}/UserSum#{i}: {e}")))?;
+                match (pa, pb) {
+                    (None, None) => {}
+                    (Some(x), Some(y)) => tid_eq(*x, *y, &format!("{path}/UserSum#{i}"))?,
+                    _ => {
+                        return Err(("UserSum-variant-payload".into(), format!("at {path}/UserSum#{i}: payload presence {} became {}", pa.is_some(), pb.is_some())));
+                    }
+                }
+            }
+            Ok(())
+        }
+        (Type::TypeAlias(x), Type::TypeAlias(y)) => sym_eq(*x, *y).map_err(|e| ("TypeAlias-name".into(), format!("at {path}: {e}"))),
+        (Type::Any, Type::Any) | (Type::Failure, Type::Failure) | (Type::Unknown, Type::Unknown) => Ok(()),
+        (Type::TypeScheme(x), Type::TypeScheme(y)) if x == y => Ok(()),
+        (Type::Intermediate(x), Type::Intermediate(y)) if Arc::ptr_eq(x, y) || x.read().unwrap().var == y.read().unwrap().var => Ok(()),
+        _ => Err((format!("{}->{}", tkind(a), tkind(b)), format!("at {path}: {} became {}", tkind(a), tkind(b)))),
+    }
+}
+
+// ------------------------------------------------------------------ what the monitor saw
+
+fn observe(st: &mut St, v: &Value, depth: usize) {
+    let k: String = match v {
+        Value::Unit => "unit".into(),
+        Value::Number(x) => {
+            if x.is_nan() {
+                format!("nan:{}", if x.to_bits() == f64::NAN.to_bits() { "canonical" } else { "other-payload" })
+            } else if x.is_infinite() {
+                if *x > 0.0 { "+inf".into() } else { "-inf".into() }
+            } else if *x == 0.0 {
+                if x.is_sign_negative() { "-0.0".into() } else { "0.0".into() }
+            } else if x.is_subnormal() {
+                "subnormal".into()
+            } else {
+                "normal".into()
+            }
+        }
+        Value::String(s) => {
+            let s = s.as_str();
+            if s.is_empty() {
+                "str:empty".into()
+            } else if s.len() >= 65536 {
+                "str:>=64KiB".into()
+            } else if s.contains('\0') {
+                "str:with-NUL".into()
+            } else if !s.is_ascii() {
+                "str:non-ascii".into()
+            } else {
+                "str:ascii".into()
+            }
+        }
+        Value::Code(_) => "code".into(),
+        Value::ErrorV(_) => "errorv".into(),
+        Value::Array(x) => {
+            x.iter().for_each(|e| observe(st, e, depth + 1));
+            format!("array/{}", wclass(x.len()))
+        }
+        Value::Tuple(x) => {
+            x.iter().for_each(|e| observe(st, e, depth + 1));
+            format!("tuple/{}", wclass(x.len()))
+        }
+        Value::Record(x) => {
+            x.iter().for_each(|(_, e)| observe(st, e, depth + 1));
+            format!("record/{}", wclass(x.len()))
+        }
+        Value::TaggedUnion(t, p) => {
+            observe(st, p, depth + 1);
+            format!("tagged/{}", if *t > u32::MAX as u64 { "tag>u32" } else { "tag<=u32" })
+        }
+        other => kind(other).to_string(),
+    };
+    st.s("decoded_node_kinds", format!("d{}:{k}", depth.min(4)));
+}
+
+fn wclass(n: usize) -> &'static str {
+    match n {
+        0 => "w0",
+        1 => "w1",
+        2 => "w2",
+        3..=8 => "w3-8",
+        _ => "w>8",
+    }
+}
+
+fn vshape(v: &V, d: usize) -> String {
+    let seq = |n: &str, xs: Vec<&V>| {
+        if d == 0 || xs.is_empty() {
+            format!("{n}{}", xs.len())
+        } else {
+            format!("{n}({})", xs.iter().map(|x| vshape(x, d - 1)).collect::<Vec<_>>().join(","))
+        }
+    };
+    match v {
+        V::Unit => "U".into(),
+        V::Num(_) => "N".into(),
+        V::Str(_) | V::Big(_) => "S".into(),
+        V::Code(_) => "C".into(),
+        V::Arr(x) => seq("Arr", x.iter().collect()),
+        V::Tup(x) => seq("Tup", x.iter().collect()),
+        V::Rec(x) => seq("Rec", x.iter().map(|f| &f.1).collect()),
+        V::Tag(_, x) => seq("Tag", vec![x]),
+        V::ErrV => "E".into(),
+        V::Closure => "Closure".into(),
+        V::Fix => "Fixpoint".into(),
+        V::ExtFn => "ExternalFn".into(),
+        V::Store(_) => "Store".into(),
+        V::CtorFn(_) => "ConstructorFn".into(),
+    }
+}
+
+fn tshape(t: &T, d: usize) -> String {
+    let seq = |n: &str, xs: Vec<&T>| {
+        if d == 0 || xs.is_empty() {
+            format!("{n}{}", xs.len())
+        } else {
+            format!("{n}({})", xs.iter().map(|x| tshape(x, d - 1)).collect::<Vec<_>>().join(","))
+        }
+    };
+    match t {
+        T::P(n) => format!("p{n}"),
+        T::Arr(x) => seq("Arr", vec![x]),
+        T::Ref(x) => seq("Ref", vec![x]),
+        T::Code(x) => seq("Code", vec![x]),
+        T::Boxed(x) => seq("Boxed", vec![x]),
+        T::Tup(x) => seq("Tup", x.iter().collect()),
+        T::Uni(x) => seq("Uni", x.iter().collect()),
+        T::Rec(x) => seq("Rec", x.iter().map(|f| &f.1).collect()),
+        T::Fun(a, r) => seq("Fun", vec![a, r]),
+        T::Sum(_, vs) => {
+            if d == 0 || vs.is_empty() {
+                format!("Sum{}", vs.len())
+            } else {
+                format!("Sum({})", vs.iter().map(|(_, p)| p.as_ref().map(|x| tshape(x, d - 1)).unwrap_or("-".into())).collect::<Vec<_>>().join(","))
+            }
+        }
+        T::Alias(_) => "Alias".into(),
+        T::Any => "Any".into(),
+        T::Fail => "Fail".into(),
+        T::Unk => "Unk".into(),
+        T::Inter(_) => "Inter".into(),
+        T::Scheme(_) => "Scheme".into(),
+    }
+}
+
+// ------------------------------------------------------------------ the oracle
+
+#[derive(Clone, Copy, PartialEq, Debug)]
+enum Expect {
+    /// must encode, decode and compare equal
+    Representable,
+    /// must be refused by the encoder
+    Refuse(&'static str),
+    /// not promised to cross: refused, or decoded equal — never altered
+    Either(&'static str),
+}
+
+/// (first kind that cannot cross via FfiValue, first kind serde_value cannot carry, contains ErrorV)
+fn scan(v: &V, ffi_bad: &mut Option<&'static str>, serde_bad: &mut Option<&'static str>, serde_either: &mut bool, errv: &mut bool) {
+    match v {
+        V::Arr(x) | V::Tup(x) => x.iter().for_each(|e| scan(e, ffi_bad, serde_bad, serde_either, errv)),
+        V::Rec(x) => x.iter().for_each(|(_, e)| scan(e, ffi_bad, serde_bad, serde_either, errv)),
+        V::Tag(_, x) => scan(x, ffi_bad, serde_bad, serde_either, errv),
+        V::ErrV => {
+            *errv = true;
+            *serde_either = true;
+        }
+        V::Closure => {
+            ffi_bad.get_or_insert("Closure");
+            serde_bad.get_or_insert("Closure");
+        }
+        V::ExtFn => {
+            ffi_bad.get_or_insert("ExternalFn");
+            serde_bad.get_or_insert("ExternalFn");
+        }
+        V::Store(_) => {
+            ffi_bad.get_or_insert("Store");
+            serde_bad.get_or_insert("Store");
+        }
+        V::Fix => {
+            ffi_bad.get_or_insert("Fixpoint");
+            *serde_either = true;
+        }
+        V::CtorFn(_) => {
+            ffi_bad.get_or_insert("ConstructorFn");
+            *serde_either = true;
+        }
+        _ => {}
+    }
+}
+
+fn expectations(vs: &[&V]) -> (Expect, Expect) {
+    let (mut fb, mut sb, mut se, mut ev) = (None, None, false, false);
+    for v in vs {
+        scan(v, &mut fb, &mut sb, &mut se, &mut ev);
+    }
+    let ffi = match fb {
+        Some(k) => Expect::Refuse(k),
+        None if ev => Expect::Either("ErrorV"),
+        None => Expect::Representable,
+    };
+    let serde = match sb {
+        Some(k) => Expect::Refuse(k),
+        None if se => Expect::Either("Fixpoint/ConstructorFn/ErrorV"),
+        None => Expect::Representable,
+    };
+    (ffi, serde)
+}
+
+fn report(st: &mut St, out: &mut Out, idx: usize, sig: String, detail: String, case: &Case) {
+    let key = format!("violations:{sig}");
+    let n = out.counters.get(&key).copied().unwrap_or(0) + st.n.get(&key).copied().unwrap_or(0);
+    st.c(&key, 1);
+    if n < 25 {
+        out.violation(idx, &sig, &detail, &serde_json::to_value(case).unwrap());
+    }
+}
+
+fn show(v: &V) -> String {
+    clip(&serde_json::to_string(v).unwrap_or_default())
+}
+
+#[derive(Clone, Copy, PartialEq)]
+enum R {
+    /// encoded, decoded, compared equal
+    Equal,
+    /// refused, as expected (or allowed)
+    Refused,
+    /// a violation was reported
+    Failed,
+}
+impl R {
+    fn done(self) -> u64 {
+        (self != R::Failed) as u64
+    }
+}
+
+/// One encode/decode round of one API. `enc`/`dec` call the real code.
+#[allow(clippy::too_many_arguments)]
+fn round<X>(
+    st: &mut St,
+    out: &mut Out,
+    idx: usize,
+    api: &str,
+    expect: Expect,
+    what: &str,
+    wit: &Case,
+    enc: impl FnOnce() -> Result<Vec<u8>, String>,
+    dec: impl FnOnce(&[u8]) -> Result<X, String>,
+    cmp: impl FnOnce(&mut St, &X) -> Result<(), Diff>,
+) -> R {
+    let bytes = match catch(enc) {
+        Err(p) => {
+            report(st, out, idx, p.sig(), format!("{api} encoder panicked on {what}: {} @ {}", p.msg, p.loc), wit);
+            return R::Failed;
+        }
+        Ok(Err(e)) => {
+            return match expect {
+                Expect::Representable => {
+                    report(st, out, idx, format!("representable-refused/{api}:encode"), format!("{api} refused {what}: {e}"), wit);
+                    R::Failed
+                }
+                Expect::Refuse(k) => {
+                    st.c(&format!("refusals_observed:{api}:{k}"), 1);
+                    R::Refused
+                }
+                Expect::Either(k) => {
+                    st.c(&format!("refusals_observed:{api}:{k}"), 1);
+                    R::Refused
+                }
+            };
+        }
+        Ok(Ok(b)) => b,
+    };
+    if let Expect::Refuse(k) = expect {
+        report(st, out, idx, format!("non-representable-accepted/{api}/{k}"), format!("{api} encoded {what} ({} bytes) although it contains a {k}, which cannot cross the boundary", bytes.len()), wit);
+        return R::Failed;
+    }
+    st.c(&format!("bytes_encoded:{api}"), bytes.len() as u64);
+    let back = match catch(|| dec(&bytes)) {
+        Err(p) => {
+            report(st, out, idx, p.sig(), format!("{api} decoder panicked on the encoding of {what}: {} @ {}", p.msg, p.loc), wit);
+            return R::Failed;
+        }
+        Ok(Err(e)) => {
+            report(st, out, idx, format!("own-encoding-undecodable/{api}"), format!("{api} cannot decode its own encoding of {what}: {e}"), wit);
+            return R::Failed;
+        }
+        Ok(Ok(x)) => x,
+    };
+    match catch(|| cmp(st, &back)) {
+        Err(p) => {
+            // the comparator only dereferences ids it has validated; a panic here comes from the repository's accessors
+            report(st, out, idx, p.sig(), format!("reading the decoded {what} panicked: {} @ {}", p.msg, p.loc), wit);
+            R::Failed
+        }
+        Ok(Err((class, detail))) => {
+            report(st, out, idx, format!("differs-after-roundtrip/{api}/{class}"), format!("{what}: {detail}"), wit);
+            R::Failed
+        }
+        Ok(Ok(())) => {
+            st.c(&format!("roundtrips_equal:{api}"), 1);
+            R::Equal
+        }
+    }
+}
+
+/// One value through `ffi_value` and `serde_value`. Returns the number of completed checks.
+fn check_value(st: &mut St, out: &mut Out, idx: usize, v: &V) -> u64 {
+    let wit = Case::OneValue { val: v.clone() };
+    let val = match catch(|| build(st, v)) {
+        Ok(x) => x,
+        Err(p) => {
+            out.inconclusive(idx, &format!("could not build value: {} @ {}", p.msg, p.loc));
+            return 0;
+        }
+    };
+    let (ef, es) = expectations(&[v]);
+    let what = format!("value {}", show(v));
+    let mut done = 0;
+    done += round(
+        st, out, idx, "ffi_value", ef, &what, &wit,
+        || serialize_value(&val),
+        deserialize_value,
+        |st, back| {
+            observe(st, back, 0);
+            veq(&val, back, "$")
+        },
+    )
+    .done();
+    done += round(
+        st, out, idx, "serde_value", es, &what, &wit,
+        || bincode::serialize(&val).map_err(|e| e.to_string()),
+        |b| bincode::deserialize::<Value>(b).map_err(|e| e.to_string()),
+        |_, back| veq(&val, back, "$"),
+    )
+    .done();
+    st.c("values_checked", 1);
+    done
+}
+
+/// One macro argument list.
+fn check_args(st: &mut St, out: &mut Out, idx: usize, vals: &[&V], tys: &[T]) -> u64 {
+    let tys_full: Vec<T> = vals.iter().enumerate().map(|(i, v)| tys.get(i).cloned().unwrap_or_else(|| type_of(v))).collect();
+    let tys = &tys_full[..];
+    let wit = Case::OneArgs { vals: vals.iter().map(|v| (*v).clone()).collect(), tys: tys_full.clone() };
+    let built = catch(|| {
+        vals.iter()
+            .enumerate()
+            .map(|(i, v)| {
+                let t = tys.get(i).cloned().unwrap_or_else(|| type_of(v));
+                (build(st, v), build_type(&t))
+            })
+            .collect::<Vec<(Value, TypeNodeId)>>()
+    });
+    let args = match built {
+        Ok(x) => x,
+        Err(p) => {
+            out.inconclusive(idx, &format!("could not build arguments: {} @ {}", p.msg, p.loc));
+            return 0;
+        }
+    };
+    let (ef, _) = expectations(vals);
+    let what = format!("argument list of {} [{}]", vals.len(), clip(&vals.iter().map(|v| vshape(v, 1)).collect::<Vec<_>>().join(", ")));
+    st.c("macro_arg_lists_checked", 1);
+    let n = args.len() as u64;
+    let r = round(
+        st, out, idx, "macro_args", ef, &what, &wit,
+        || serialize_macro_args(&args),
+        deserialize_macro_args,
+        |st, back| {
+            if back.len() != args.len() {
+                return Err(("list-length".into(), format!("{} arguments became {}", args.len(), back.len())));
+            }
+            for (i, ((va, ta), (vb, tb))) in args.iter().zip(back).enumerate() {
+                veq(va, vb, &format!("$arg{i}"))?;
+                tid_eq(*ta, *tb, &format!("$arg{i}:type")).map_err(|(c, d)| (format!("arg-type/{c}"), d))?;
+                if ta.0 == tb.0 {
+                    st.c("arg_types_same_id", 1);
+                }
+            }
+            Ok(())
+        },
+    );
+    if r == R::Equal {
+        st.c("macro_args_roundtripped", n);
+        st.s("macro_arg_list_lengths", wclass(args.len()).to_string());
+    }
+    r.done()
+}
+
+/// One type: by value (`Type`) and as `TypeNodeId`.
+fn check_type(st: &mut St, out: &mut Out, idx: usize, t: &T) -> u64 {
+    let wit = Case::OneType { ty: t.clone() };
+    let id = match catch(|| build_type(t)) {
+        Ok(x) => x,
+        Err(p) => {
+            out.inconclusive(idx, &format!("could not build type: {} @ {}", p.msg, p.loc));
+            return 0;
+        }
+    };
+    let ty = id.to_type();
+    let what = format!("type {}", clip(&serde_json::to_string(t).unwrap_or_default()));
+    let expect = match t {
+        // internal compiler state: today refused by value; carrying it unchanged would also satisfy the property
+        T::Inter(_) => Expect::Either("Intermediate"),
+        T::Scheme(_) => Expect::Either("TypeScheme"),
+        _ => Expect::Representable,
+    };
+    let mut done = 0;
+    st.c("types_checked", 1);
+    done += round(
+        st, out, idx, "type_by_value", expect, &what, &wit,
+        || bincode::serialize(&ty).map_err(|e| e.to_string()),
+        |b| bincode::deserialize::<Type>(b).map_err(|e| e.to_string()),
+        |st, back| {
+            st.s("decoded_type_constructors", tkind(back).to_string());
+            teq(&ty, back, "$")
+        },
+    )
+    .done();
+    // a TypeNodeId is a key into the shared interner: every type, internal ones included, is representable
+    done += round(
+        st, out, idx, "type_node_id", Expect::Representable, &what, &wit,
+        || bincode::serialize(&id).map_err(|e| e.to_string()),
+        |b| bincode::deserialize::<TypeNodeId>(b).map_err(|e| e.to_string()),
+        |_, back| tid_eq(id, *back, "$"),
+    )
+    .done();
+    done
+}
+
+// ------------------------------------------------------------------ enumerated universes
+
+const NAN1: u64 = 0x7ff8_0000_0000_0000; // canonical quiet NaN
+const NAN2: u64 = 0xfff4_0000_dead_beef; // negative, signalling-range payload
+const TAGS: [u64; 5] = [0, 1, 0xffff_ffff, 0x1_0000_0000, u64::MAX];
+const VCTORS: [&str; 3] = ["Arr", "Tup", "Rec"];
+const TCTORS2: [&str; 5] = ["Tup", "Rec", "Fun", "Uni", "Sum"];
+const TCTORS1: [&str; 4] = ["Arr", "Ref", "Code", "Boxed"];
+
+fn leaves(q_errv: bool) -> Vec<V> {
+    let mut l = vec![
+        V::Unit,
+        V::Num(0.0f64.to_bits()),
+        V::Num((-0.0f64).to_bits()),
+        V::Num(NAN1),
+        V::Num(NAN2),
+        V::Num(f64::INFINITY.to_bits()),
+        V::Num(f64::NEG_INFINITY.to_bits()),
+        V::Num(5e-324f64.to_bits()),
+        V::Num(1e308f64.to_bits()),
+        V::Str(String::new()),
+        V::Str("é".into()),
+        V::Str("a\0b".into()),
+        V::Big(65536),
+        V::Code(C::App(Box::new(C::Var("f".into())), vec![C::Int(42), C::Str("é".into())])),
+    ];
+    if !q_errv {
+        l.push(V::ErrV);
+    }
+    l
+}
+
+/// reduced leaf sets of the depth-3 enumeration
+fn deep_leaves() -> Vec<V> {
+    vec![V::Unit, V::Num(NAN2), V::Num((-0.0f64).to_bits()), V::Str("é\0".into()), V::Code(C::Int(7))]
+}
+fn deep_tleaves() -> Vec<T> {
+    vec![T::P(2), T::Alias("é".into()), T::Any, T::Unk]
+}
+const DEEP_BLOCK: usize = 64;
+const DEEP_TBLOCK: usize = 256;
+
+fn mk(ctor: &str, xs: Vec<V>) -> V {
+    match ctor {
+        "Arr" => V::Arr(xs),
+        "Tup" => V::Tup(xs),
+        "Rec" => V::Rec(xs.into_iter().enumerate().map(|(i, x)| (["x", "y", "z", "w"][i % 4].to_string(), x)).collect()),
+        "Tag" => V::Tag(7, Box::new(xs.into_iter().next().unwrap_or(V::Unit))),
+        _ => unreachable!("ctor {ctor}"),
+    }
+}
+
+/// leaves plus every depth-1 value of width <= 2
+fn universe1(l: &[V]) -> Vec<V> {
+    let mut u: Vec<V> = l.to_vec();
+    for ctor in VCTORS {
+        u.push(mk(ctor, vec![]));
+        for a in l {
+            u.push(mk(ctor, vec![a.clone()]));
+        }
+        for a in l {
+            for b in l {
+                u.push(mk(ctor, vec![a.clone(), b.clone()]));
+            }
+        }
+    }
+    // record key specials: empty key, non-ASCII key with NUL, duplicate keys
+    for a in l {
+        u.push(V::Rec(vec![(String::new(), a.clone())]));
+        u.push(V::Rec(vec![("é\0k".into(), a.clone())]));
+    }
+    let few = [V::Unit, V::Num(NAN2), V::Str("é".into())];
+    for a in &few {
+        for b in &few {
+            u.push(V::Rec(vec![("x".into(), a.clone()), ("x".into(), b.clone())]));
+        }
+    }
+    for t in TAGS {
+        for a in l {
+            u.push(V::Tag(t, Box::new(a.clone())));
+        }
+    }
+    u
+}
+
+fn tleaves() -> Vec<T> {
+    vec![T::P(0), T::P(1), T::P(2), T::P(3), T::Alias("A".into()), T::Alias("é".into()), T::Any, T::Fail, T::Unk]
+}
+
+fn sum_variants(l: &[T]) -> Vec<Option<T>> {
+    let mut v = vec![None];
+    v.extend(l.iter().cloned().map(Some));
+    v
+}
+
+fn tmk1(ctor: &str, x: T) -> T {
+    match ctor {
+        "Arr" => T::Arr(Box::new(x)),
+        "Ref" => T::Ref(Box::new(x)),
+        "Code" => T::Code(Box::new(x)),
+        "Boxed" => T::Boxed(Box::new(x)),
+        _ => unreachable!("unary {ctor}"),
+    }
+}
+
+/// n-ary constructors; for "Sum" the members are variant payloads
+fn tmk(ctor: &str, xs: Vec<Option<T>>) -> T {
+    let some = |xs: Vec<Option<T>>| xs.into_iter().map(|x| x.unwrap_or(T::P(0))).collect::<Vec<T>>();
+    match ctor {
+        "Tup" => T::Tup(some(xs)),
+        "Uni" => T::Uni(some(xs)),
+        "Rec" => T::Rec(some(xs).into_iter().enumerate().map(|(i, x)| (["x", "y", "z", "w"][i % 4].to_string(), x, i % 2 == 1)).collect()),
+        "Fun" => {
+            let mut it = some(xs).into_iter();
+            let a = it.next().unwrap_or(T::P(0));
+            let r = it.next().unwrap_or(T::P(0));
+            T::Fun(Box::new(a), Box::new(r))
+        }
+        "Sum" => T::Sum("S".into(), xs.into_iter().enumerate().map(|(i, p)| (["A", "B", "C", "D"][i % 4].to_string(), p)).collect()),
+        _ => unreachable!("ctor {ctor}"),
+    }
+}
+
+fn type_universe1(l: &[T]) -> Vec<T> {
+    let l = l.to_vec();
+    let mut u = l.clone();
+    for c in TCTORS1 {
+        for a in &l {
+            u.push(tmk1(c, a.clone()));
+        }
+    }
+    for c in TCTORS2 {
+        let members: Vec<Option<T>> = if c == "Sum" { sum_variants(&l) } else { l.iter().cloned().map(Some).collect() };
+        if c != "Fun" {
+            u.push(tmk(c, vec![]));
+            for a in &members {
+                u.push(tmk(c, vec![a.clone()]));
+            }
+        }
+        for a in &members {
+            for b in &members {
+                u.push(tmk(c, vec![a.clone(), b.clone()]));
+            }
+        }
+    }
+    // record field with a default in first position
+    for a in &l {
+        u.push(T::Rec(vec![("x".into(), a.clone(), true)]));
+    }
+    u
+}
+
+/// every nesting context of depth <= 2 around `x`
+fn contexts(x: &V) -> Vec<V> {
+    let good = [V::Unit, V::Num(1.0f64.to_bits()), V::Str("é".into())];
+    let one = |x: &V| -> Vec<V> {
+        let mut r = vec![];
+        for c in VCTORS {
+            r.push(mk(c, vec![x.clone()]));
+            for g in &good {
+                r.push(mk(c, vec![g.clone(), x.clone()]));
+                r.push(mk(c, vec![x.clone(), g.clone()]));
+            }
+        }
+        r.push(V::Tag(0, Box::new(x.clone())));
+        r.push(V::Tag(u64::MAX, Box::new(x.clone())));
+        r
+    };
+    let d1 = one(x);
+    let mut all = vec![x.clone()];
+    for c in &d1 {
+        all.extend(one(c));
+    }
+    all.extend(d1);
+    all
+}
+
+// ------------------------------------------------------------------ random artefacts
+
+const PIECES: [&str; 22] = [
+    "a", "Z", "0", " ", "\0", "é", "ß", "日本", "🎹", "\u{301}", "\u{feff}", "\u{10ffff}", "\n", "\"", "\\", "\u{7f}", "\u{80}", "\u{7ff}",
+    "\u{800}", "\u{ffff}", "\u{10000}", "_x1",
+];
+
+fn rand_string(rng: &mut Rng) -> String {
+    let n = match rng.below(10) {
+        0 => 0,
+        1..=6 => rng.range(1, 6) as usize,
+        _ => rng.range(7, 40) as usize,
+    };
+    (0..n).map(|_| *rng.pick(&PIECES)).collect()
+}
+
+fn rand_num(rng: &mut Rng) -> u64 {
+    let specials = [
+        0.0f64.to_bits(),
+        (-0.0f64).to_bits(),
+        NAN1,
+        NAN2,
+        0x7ff0_0000_0000_0001, // signalling NaN, smallest payload
+        0xffff_ffff_ffff_ffff,
+        f64::INFINITY.to_bits(),
+        f64::NEG_INFINITY.to_bits(),
+        5e-324f64.to_bits(),
+        f64::MIN_POSITIVE.to_bits(),
+        f64::MAX.to_bits(),
+        f64::MIN.to_bits(),
+        1e308f64.to_bits(),
+        1.0f64.to_bits(),
+        (-1.5f64).to_bits(),
+        4294967296.0f64.to_bits(),
+    ];
+    if rng.chance(1, 2) { *rng.pick(&specials) } else { rng.next() }
+}
+
+fn rand_tag(rng: &mut Rng) -> u64 {
+    match rng.below(4) {
+        0 => rng.below(8) as u64,
+        1 => *rng.pick(&TAGS),
+        2 => (1u64 << rng.range(31, 63)) + rng.below(3) as u64 - 1,
+        _ => rng.next(),
+    }
+}
+
+fn rand_code(rng: &mut Rng, depth: usize) -> C {
+    let leaf = depth == 0 || rng.chance(1, 2);
+    if leaf {
+        return match rng.below(4) {
+            0 => C::Int(rng.next() as i64),
+            1 => C::Var(rand_string(rng)),
+            2 => C::Str(rand_string(rng)),
+            _ => C::Err,
+        };
+    }
+    match rng.below(3) {
+        0 => C::Tuple((0..rng.below(4)).map(|_| rand_code(rng, depth - 1)).collect()),
+        1 => C::App(Box::new(rand_code(rng, depth - 1)), (0..rng.below(3)).map(|_| rand_code(rng, depth - 1)).collect()),
+        _ => {
+            let a = rng.below(1000);
+            C::At(Box::new(rand_code(rng, depth - 1)), a, a + rng.below(50))
+        }
+    }
+}
+
+fn rand_leaf(rng: &mut Rng, bigs: &[u32], errv: bool) -> V {
+    if errv && rng.chance(1, 40) {
+        return V::ErrV;
+    }
+    match rng.below(12) {
+        0 => V::Unit,
+        1..=4 => V::Num(rand_num(rng)),
+        5..=8 => V::Str(rand_string(rng)),
+        9 => {
+            if rng.chance(1, 6) {
+                V::Big(*rng.pick(bigs))
+            } else {
+                V::Str(rand_string(rng))
+            }
+        }
+        _ => V::Code(rand_code(rng, 2)),
+    }
+}
+
+fn rand_bad(rng: &mut Rng) -> V {
+    match rng.below(6) {
+        0 => V::Closure,
+        1 => V::Fix,
+        2 => V::ExtFn,
+        3 => V::Store(Box::new(V::Num(rand_num(rng)))),
+        4 => V::Store(Box::new(V::Closure)),
+        _ => V::CtorFn(rand_tag(rng)),
+    }
+}
+
+/// `bad`: Some(countdown) plants one non-representable value at the countdown-th visited node
+fn rand_value(rng: &mut Rng, depth: usize, maxw: usize, bigs: &[u32], errv: bool, bad: &mut Option<usize>) -> V {
+    if let Some(n) = bad {
+        if *n == 0 {
+            *bad = None;
+            return rand_bad(rng);
+        }
+        *n -= 1;
+    }
+    if depth == 0 || rng.chance(1, 3) {
+        return rand_leaf(rng, bigs, errv);
+    }
+    let w = match rng.below(6) {
+        0 => 0,
+        1 | 2 => rng.range(1, 2) as usize,
+        _ => rng.range(1, maxw as i64) as usize,
+    };
+    match rng.below(4) {
+        0 => V::Arr((0..w).map(|_| rand_value(rng, depth - 1, maxw, bigs, errv, bad)).collect()),
+        1 => V::Tup((0..w).map(|_| rand_value(rng, depth - 1, maxw, bigs, errv, bad)).collect()),
+        2 => {
+            let keys: Vec<String> = (0..w).map(|_| if rng.chance(1, 8) { "dup".to_string() } else { rand_string(rng) }).collect();
+            V::Rec(keys.into_iter().map(|k| (k, rand_value(rng, depth - 1, maxw, bigs, errv, bad))).collect())
+        }
+        _ => V::Tag(rand_tag(rng), Box::new(rand_value(rng, depth - 1, maxw, bigs, errv, bad))),
+    }
+}
+
+fn rand_type(rng: &mut Rng, depth: usize, maxw: usize) -> T {
+    if depth == 0 || rng.chance(1, 4) {
+        return match rng.below(8) {
+            0..=3 => T::P(rng.below(4) as u8),
+            4 => T::Alias(rand_string(rng)),
+            5 => T::Any,
+            6 => T::Fail,
+            _ => T::Unk,
+        };
+    }
+    let w = if rng.chance(1, 6) { 0 } else { rng.range(1, maxw as i64) as usize };
+    match rng.below(10) {
+        0 => T::Arr(Box::new(rand_type(rng, depth - 1, maxw))),
+        1 => T::Ref(Box::new(rand_type(rng, depth - 1, maxw))),
+        2 => T::Code(Box::new(rand_type(rng, depth - 1, maxw))),
+        3 => T::Boxed(Box::new(rand_type(rng, depth - 1, maxw))),
+        4 => T::Tup((0..w).map(|_| rand_type(rng, depth - 1, maxw)).collect()),
+        5 => T::Uni((0..w).map(|_| rand_type(rng, depth - 1, maxw)).collect()),
+        6 => T::Rec((0..w).map(|_| (rand_string(rng), rand_type(rng, depth - 1, maxw), rng.chance(1, 2))).collect()),
+        7 => T::Fun(Box::new(rand_type(rng, depth - 1, maxw)), Box::new(rand_type(rng, depth - 1, maxw))),
+        8 => T::Sum(
+            rand_string(rng),
+            (0..w).map(|_| (rand_string(rng), if rng.chance(1, 3) { None } else { Some(rand_type(rng, depth - 1, maxw)) })).collect(),
+        ),
+        // internal compiler state below a constructor travels as an id and is fine; at the root it must be refused
+        _ => {
+            if rng.chance(1, 2) {
+                T::Inter(rng.below(1000) as u64)
+            } else {
+                T::Scheme(rng.below(1000) as u64)
+            }
+        }
+    }
+}
+
+// ------------------------------------------------------------------ case execution
+
+fn exec(st: &mut St, c: &Case, idx: usize, out: &mut Out) -> bool {
+    let done = exec_inner(st, c, idx, out);
+    st.flush(out);
+    done > 0
+}
+
+fn exec_inner(st: &mut St, c: &Case, idx: usize, out: &mut Out) -> u64 {
+    let mut done = 0u64;
+    match c {
+        Case::ValBase => {
+            let u = st.u1.clone();
+            for v in &u {
+                done += check_value(st, out, idx, v);
+                st.s("value_shapes", vshape(v, 2));
+                done += check_args(st, out, idx, &[v], &[]);
+            }
+            done += check_args(st, out, idx, &[], &[]);
+        }
+        Case::ValBlock { ctor, first } => {
+            if !VCTORS.contains(&ctor.as_str()) {
+                out.inconclusive(idx, "unknown constructor in case");
+                return 0;
+            }
+            let u = st.u1.clone();
+            let v1 = mk(ctor, vec![first.clone()]);
+            done += check_value(st, out, idx, &v1);
+            st.s("value_shapes", vshape(&v1, 2));
+            for b in &u {
+                let v = mk(ctor, vec![first.clone(), b.clone()]);
+                done += check_value(st, out, idx, &v);
+                st.s("value_shapes", vshape(&v, 2));
+                if ctor == "Tup" {
+                    // the same pair as a two-element macro argument list
+                    done += check_args(st, out, idx, &[first, b], &[]);
+                }
+            }
+        }
+        Case::ValTagBlock { tag } => {
+            let u = st.u1.clone();
+            for b in &u {
+                let v = V::Tag(*tag, Box::new(b.clone()));
+                done += check_value(st, out, idx, &v);
+                st.s("value_shapes", vshape(&v, 2));
+            }
+            st.s("tags_sent", format!("{tag}"));
+        }
+        Case::ValChains { root } => {
+            let l = leaves(st.q_errv);
+            let ctors = ["Arr", "Tup", "Rec", "Tag"];
+            if !ctors.contains(&root.as_str()) {
+                out.inconclusive(idx, "unknown constructor in case");
+                return 0;
+            }
+            let place = |c: &str, x: &V, slot: usize| -> V {
+                if c == "Tag" {
+                    return V::Tag(TAGS[3], Box::new(x.clone()));
+                }
+                let filler = V::Num(NAN2);
+                mk(c, if slot == 0 { vec![x.clone(), filler] } else { vec![filler, x.clone()] })
+            };
+            for c2 in ctors {
+                for c3 in ctors {
+                    for leaf in &l {
+                        for slots in 0..8usize {
+                            let inner = place(c3, leaf, slots & 1);
+                            let mid = place(c2, &inner, (slots >> 1) & 1);
+                            let v = place(root, &mid, (slots >> 2) & 1);
+                            done += check_value(st, out, idx, &v);
+                            done += check_args(st, out, idx, &[leaf, &v, &mid], &[]);
+                        }
+                    }
+                    st.s("value_constructor_chains", format!("{root}>{c2}>{c3}"));
+                }
+            }
+        }
+        Case::Refuse { bad } => {
+            let (ef, _) = expectations(&[bad]);
+            if !matches!(ef, Expect::Refuse(_)) {
+                out.inconclusive(idx, "Refuse case without a non-representable value");
+                return 0;
+            }
+            let good = V::Str("é".into());
+            for v in contexts(bad) {
+                done += check_value(st, out, idx, &v);
+                done += check_args(st, out, idx, &[&v], &[]);
+                done += check_args(st, out, idx, &[&good, &v], &[]);
+                done += check_args(st, out, idx, &[&v, &good, &good], &[]);
+                st.c("refusal_contexts_checked", 1);
+            }
+            st.s("non_representable_kinds_sent", vshape(bad, 0));
+        }
+        Case::TyBase => {
+            let u = st.u1t.clone();
+            for t in &u {
+                done += check_type(st, out, idx, t);
+                st.s("type_shapes", tshape(t, 1));
+                for c in TCTORS1 {
+                    let t2 = tmk1(c, t.clone());
+                    done += check_type(st, out, idx, &t2);
+                    st.s("type_shapes", tshape(&t2, 1));
+                }
+            }
+            for t in [T::Inter(0), T::Inter(7), T::Scheme(0), T::Scheme(u64::MAX)] {
+                done += check_type(st, out, idx, &t);
+                // below a constructor internal types travel as ids
+                done += check_type(st, out, idx, &T::Tup(vec![t.clone(), T::P(2)]));
+                done += check_args(st, out, idx, &[&V::Unit], &[t]);
+            }
+        }
+        Case::TyBlock { ctor, first } => {
+            if !TCTORS2.contains(&ctor.as_str()) || (first.is_none() && ctor != "Sum") {
+                out.inconclusive(idx, "malformed TyBlock case");
+                return 0;
+            }
+            let u = st.u1t.clone();
+            let members: Vec<Option<T>> = if ctor == "Sum" { sum_variants(&u) } else { u.into_iter().map(Some).collect() };
+            if ctor != "Fun" {
+                let t1 = tmk(ctor, vec![first.clone()]);
+                done += check_type(st, out, idx, &t1);
+                st.s("type_shapes", tshape(&t1, 1));
+            }
+            for b in &members {
+                let t = tmk(ctor, vec![first.clone(), b.clone()]);
+                done += check_type(st, out, idx, &t);
+                st.s("type_shapes", tshape(&t, 1));
+            }
+        }
+        Case::ValDeep { ctor, lo, hi } => {
+            let d = st.deep();
+            let (u1, u2) = (&d.0, &d.1);
+            if !(VCTORS.contains(&ctor.as_str()) || ctor == "Tag") || *lo > *hi || *hi > u2.len() {
+                out.inconclusive(idx, "malformed ValDeep case");
+                return 0;
+            }
+            for a in &u2[*lo..*hi] {
+                if ctor == "Tag" {
+                    for t in TAGS {
+                        done += check_value(st, out, idx, &V::Tag(t, Box::new(a.clone())));
+                    }
+                    continue;
+                }
+                let v1 = mk(ctor, vec![a.clone()]);
+                done += check_value(st, out, idx, &v1);
+                st.s("value_shapes_depth3", vshape(&v1, 1));
+                for b in u1 {
+                    done += check_value(st, out, idx, &mk(ctor, vec![a.clone(), b.clone()]));
+                    done += check_value(st, out, idx, &mk(ctor, vec![b.clone(), a.clone()]));
+                }
+            }
+            st.c("depth3_first_members_enumerated", (*hi - *lo) as u64);
+        }
+        Case::TyDeep { ctor, lo, hi } => {
+            let d = st.deep();
+            let u2t = &d.2;
+            let unary = TCTORS1.contains(&ctor.as_str());
+            if !(unary || TCTORS2.contains(&ctor.as_str())) || *lo > *hi || *hi > u2t.len() {
+                out.inconclusive(idx, "malformed TyDeep case");
+                return 0;
+            }
+            let bs = [T::P(2), T::Alias("é".into())];
+            for a in &u2t[*lo..*hi] {
+                if unary {
+                    let t = tmk1(ctor, a.clone());
+                    done += check_type(st, out, idx, &t);
+                    st.s("type_shapes_depth3", tshape(&t, 1));
+                    continue;
+                }
+                for b in &bs {
+                    let t = tmk(ctor, vec![Some(a.clone()), Some(b.clone())]);
+                    done += check_type(st, out, idx, &t);
+                    st.s("type_shapes_depth3", tshape(&t, 1));
+                    done += check_type(st, out, idx, &tmk(ctor, vec![Some(b.clone()), Some(a.clone())]));
+                }
+            }
+            st.c("depth3_first_member_types_enumerated", (*hi - *lo) as u64);
+        }
+        Case::TyChains { root } => {
+            let all: Vec<&str> = TCTORS1.iter().chain(TCTORS2.iter()).copied().collect();
+            if !all.contains(&root.as_str()) {
+                out.inconclusive(idx, "unknown constructor in case");
+                return 0;
+            }
+            let place = |c: &str, x: &T, slot: usize| -> T {
+                if TCTORS1.contains(&c) {
+                    return tmk1(c, x.clone());
+                }
+                let filler = Some(T::Alias("é".into()));
+                tmk(c, if slot == 0 { vec![Some(x.clone()), filler] } else { vec![filler, Some(x.clone())] })
+            };
+            for c2 in &all {
+                for c3 in &all {
+                    for leaf in tleaves() {
+                        for slots in 0..8usize {
+                            let inner = place(c3, &leaf, slots & 1);
+                            let mid = place(c2, &inner, (slots >> 1) & 1);
+                            let t = place(root, &mid, (slots >> 2) & 1);
+                            done += check_type(st, out, idx, &t);
+                        }
+                    }
+                    st.s("type_constructor_chains", format!("{root}>{c2}>{c3}"));
+                }
+            }
+        }
+        Case::Rand { vals, tys } => {
+            for v in vals {
+                done += check_value(st, out, idx, v);
+                st.s("value_shapes", vshape(v, 1));
+            }
+            for t in tys {
+                done += check_type(st, out, idx, t);
+                st.s("type_shapes", tshape(t, 1));
+            }
+            if !vals.is_empty() {
+                let refs: Vec<&V> = vals.iter().collect();
+                done += check_args(st, out, idx, &refs, tys);
+            }
+        }
+        Case::OneValue { val } => {
+            done += check_value(st, out, idx, val);
+            st.s("value_shapes", vshape(val, 1));
+        }
+        Case::OneArgs { vals, tys } => {
+            let refs: Vec<&V> = vals.iter().collect();
+            done += check_args(st, out, idx, &refs, tys);
+        }
+        Case::OneType { ty } => {
+            done += check_type(st, out, idx, ty);
+            st.s("type_shapes", tshape(ty, 1));
+        }
+    }
+    done
+}
+
+// ------------------------------------------------------------------ plan
+
+struct Plan {
+    deep: bool,
+    errv: bool,
+    rand_cases: usize,
+    depth: usize,
+    width: usize,
+    vals_per_case: usize,
+    bigs: Vec<u32>,
+}
+
+fn plan(args: &Args) -> Plan {
+    if args.thorough() {
+        Plan { deep: true, errv: !args.q("errorv-leaf"), rand_cases: 40_000, depth: 4, width: 8, vals_per_case: 10, bigs: vec![65535, 65536, 65537, 70_000, 1 << 20] }
+    } else {
+        Plan { deep: false, errv: !args.q("errorv-leaf"), rand_cases: 6_000, depth: 3, width: 8, vals_per_case: 6, bigs: vec![65535, 65536, 65537, 70_000] }
+    }
+}
+
+fn bad_kinds() -> Vec<V> {
+    vec![
+        V::Closure,
+        V::Fix,
+        V::ExtFn,
+        V::Store(Box::new(V::Unit)),
+        V::Store(Box::new(V::Closure)),
+        V::CtorFn(0),
+        V::CtorFn(u64::MAX),
+    ]
+}
+
+/// The fixed (enumerated) cases, in index order.
+fn fixed_cases(st: &mut St, deep: bool) -> Vec<Case> {
+    let mut cs = vec![Case::ValBase, Case::TyBase];
+    for t in TAGS {
+        cs.push(Case::ValTagBlock { tag: t });
+    }
+    for b in bad_kinds() {
+        cs.push(Case::Refuse { bad: b });
+    }
+    for r in ["Arr", "Tup", "Rec", "Tag"] {
+        cs.push(Case::ValChains { root: r.into() });
+    }
+    for r in TCTORS1.iter().chain(TCTORS2.iter()) {
+        cs.push(Case::TyChains { root: r.to_string() });
+    }
+    for ctor in VCTORS {
+        for f in &st.u1 {
+            cs.push(Case::ValBlock { ctor: ctor.into(), first: f.clone() });
+        }
+    }
+    for ctor in TCTORS2 {
+        if ctor == "Sum" {
+            cs.push(Case::TyBlock { ctor: ctor.into(), first: None });
+        }
+        for f in &st.u1t {
+            cs.push(Case::TyBlock { ctor: ctor.into(), first: Some(f.clone()) });
+        }
+    }
+    if deep {
+        let d = st.deep();
+        for ctor in ["Arr", "Tup", "Rec", "Tag"] {
+            // tags are cheap (5 values per member): larger blocks
+            let step = if ctor == "Tag" { DEEP_BLOCK * 16 } else { DEEP_BLOCK };
+            let mut lo = 0;
+            while lo < d.1.len() {
+                let hi = (lo + step).min(d.1.len());
+                cs.push(Case::ValDeep { ctor: ctor.into(), lo, hi });
+                lo = hi;
+            }
+        }
+        for ctor in TCTORS1.iter().chain(TCTORS2.iter()) {
+            let step = if TCTORS1.contains(ctor) { DEEP_TBLOCK * 4 } else { DEEP_TBLOCK };
+            let mut lo = 0;
+            while lo < d.2.len() {
+                let hi = (lo + step).min(d.2.len());
+                cs.push(Case::TyDeep { ctor: ctor.to_string(), lo, hi });
+                lo = hi;
+            }
+        }
+    }
+    // a varied prefix: the evidence shows the first few cases verbatim
+    let find = |cs: &[Case], f: &dyn Fn(&Case) -> bool, skip: usize| cs.iter().enumerate().filter(|(_, c)| f(c)).nth(skip).map(|x| x.0);
+    if let Some(i) = find(&cs, &|c| matches!(c, Case::ValBlock { ctor, .. } if ctor == "Rec"), 40) {
+        cs.swap(2, i);
+    }
+    if let Some(i) = find(&cs, &|c| matches!(c, Case::Refuse { .. }), 0) {
+        cs.swap(3, i);
+    }
+    if let Some(i) = find(&cs, &|c| matches!(c, Case::TyBlock { ctor, .. } if ctor == "Sum"), 30) {
+        cs.swap(4, i);
+    }
+    cs
+}
+
+pub fn meta(args: &Args) -> Json {
+    let p = plan(args);
+    let mut st = St::new(args);
+    let (nu, nt) = (st.u1.len(), st.u1t.len());
+    let nfixed = fixed_cases(&mut st, p.deep).len();
+    let deep_txt = if p.deep {
+        let d = st.deep();
+        format!(" Depth 3 (this tier): U2' = all {} values of depth <= 2, width <= 2 over the 5 leaves {{unit, NaN payload, -0.0, \"é\\0\", code}} (record key specials and the 5 tags included); enumerated ctor[a], ctor[a,b], ctor[b,a] for ctor in array/tuple/record, every a in U2' and every b of the {} values of depth <= 1, and TaggedUnion(tag, a) for the 5 tags (through ffi_value and serde_value). U2T' = all {} types of depth <= 2, width <= 2 over {{Numeric, alias, Any, Unknown}}; enumerated every unary constructor over every a in U2T' and ctor[a,b], ctor[b,a] for the five n-ary constructors and b in {{Numeric, alias}}.", d.1.len(), d.0.len(), d.2.len())
+    } else {
+        String::new()
+    };
+    json!({
+        "level": "exploration",
+        "rule": format!(
+            "Values — exhaustive: let L = the {nl} leaves {{unit, 0.0, -0.0, two NaN payloads, +inf, -inf, subnormal, 1e308, \"\", \"é\", a string with NUL, a 64 KiB multi-byte string, code}} and U1 = L plus every array/tuple/record of width <= 2 over L (records also with empty, non-ASCII+NUL and duplicate keys) plus TaggedUnion(tag, l) for tags {{0, 1, 2^32-1, 2^32, 2^64-1}} ({nu} values). Enumerated: every element of U1; ctor[a] and ctor[a,b] for ctor in array/tuple/record and all a, b in U1 (one case = one (ctor, a) against all b); TaggedUnion(tag, b) for the 5 tags and all b in U1; every depth-3 chain of constructors over every leaf with the inner value at every slot; every one of 7 non-representable values (Closure, Fixpoint, ExternalFn, Store x2, ConstructorFn x2) bare and in every nesting context of depth <= 2. Each value goes through serialize_value/deserialize_value and through bincode over `impl Serialize/Deserialize for Value`; pairs (a, b) for the tuple blocks, chain triples and refusal contexts also go through serialize_macro_args/deserialize_macro_args with their static types. Types — exhaustive: U1T = 9 leaves (4 primitives, 2 aliases, Any, Failure, Unknown) plus every unary constructor over a leaf, every Tuple/Union/Record/UserSum of width <= 2 and Function over leaves ({nt} types); enumerated: U1T bare and under Array/Ref/Code/Boxed; ctor[a], ctor[a,b] for the five n-ary constructors and all a, b in U1T; every depth-3 chain of the 9 constructors over every leaf at every slot; Intermediate and TypeScheme at the root (by value: refused, or carried unchanged) and below a constructor (travel as ids). Each type goes through bincode by value (`impl Serialize/Deserialize for Type`) and as TypeNodeId. {deep_txt} {nfixed} enumerated cases, then {r} random cases of {k} values (depth <= {d}, width <= {w}, random float bits, strings from a pool of ASCII/NUL/2-,3-,4-byte/combining/BOM pieces, strings of 65535..{big} bytes, random u64 tags, random code, 1 in 8 with a non-representable value planted) sent singly and together as one argument list with random types (depth <= 3). A case is non-trivial when at least one encode->decode->compare round or one observed refusal completed in it; distinctness = hash of the case artefact.",
+            nl = leaves(st.q_errv).len(), r = p.rand_cases, k = p.vals_per_case, d = p.depth, w = p.width, big = p.bigs.last().unwrap()),
+        "assumptions": [
+            "host and plugin share one interner (set_external_session_globals), as plugin/loader.rs arranges: ids of expressions, types and symbols are therefore compared by key first and structurally second",
+            "bincode 1.3 with default options is the wire format (the only one linked for this boundary)",
+            "equality = same variant, floats bit-identical (NaN payload and sign included), strings byte-identical, record fields in the same order with the same keys, tags identical as u64, code the same interned expression (or an equal expression with an equal span)",
+            "Value::ErrorV is in neither list of the property; it may be refused or carried, but not altered",
+            "Fixpoint/ConstructorFn/ErrorV through the direct `Serialize for Value` may be refused or carried unchanged; Closure/ExternalFn/Store must be refused there too",
+            "Miri is not part of ./check (separate 2-minute build of the whole dependency tree); tools/c20_miri.sh runs the small explicit case corpus/C20/miri_small.json under Miri on demand"
+        ],
+        "floor": {"quick": 3000, "thorough": 20000},
+        "exhaustive": true,
+        "case_timeout_s": 180,
+        "hang_is_violation": false,
+    })
+}
+
+fn gen_rand(p: &Plan, rng: &mut Rng) -> Case {
+    let n = rng.range(1, p.vals_per_case as i64) as usize;
+    let mut bad = if rng.chance(1, 8) { Some(rng.below(12)) } else { None };
+    let depth = p.depth;
+    let vals: Vec<V> = (0..n)
+        .map(|_| {
+            let d = rng.range(0, depth as i64) as usize;
+            rand_value(rng, d, p.width, &p.bigs, p.errv, &mut bad)
+        })
+        .collect();
+    let tys: Vec<T> = (0..n).map(|_| rand_type(rng, 3, 4)).collect();
+    Case::Rand { vals, tys }
+}
+
+pub fn run(args: &Args, out: &mut Out) {
+    let p = plan(args);
+    let mut st = St::new(args);
+    let fixed = fixed_cases(&mut st, p.deep);
+    let total = fixed.len() + p.rand_cases;
+    let total = args.budget.map(|b| b.min(total)).unwrap_or(total);
+    out.max_samples = 1;
+    drive(
+        args,
+        out,
+        total,
+        |idx, rng| {
+            // index 5 is a random case so that the evidence samples show one
+            match idx {
+                5 => Some(gen_rand(&p, rng)),
+                i if i < 5 => Some(fixed[i].clone()),
+                i if i <= fixed.len() => Some(fixed[i - 1].clone()),
+                _ => Some(gen_rand(&p, rng)),
+            }
+        },
+        |c, idx, out| exec(&mut st, c, idx, out),
+    );
+}
+
+pub fn replay(args: &Args, out: &mut Out, case: &Json) {
+    let mut st = St::new(args);
+    // a replayed witness is executed as it is, whatever is quarantined in general exploration
+    st.q_errv = false;
+    replay_one::<Case>(out, case, |c, idx, out| exec(&mut st, c, idx, out));
+}
